@@ -208,7 +208,8 @@ fn one_txin(rng: &mut R, out: &mut Out, t: &TxIn, tag: &str) {
         if !idx_ok && iss_ok && t.previous_output.vout == (1 << 30) - 1 {
             // theorem ids_at_excluded_index: the PSET computes the ids of index 0xffffffff
             let e = o_ids(&txid, 0xffff_ffff, &t.asset_issuance);
-            out.s("excluded_index_is_coinbase_index", (rep.pset_ids.0.to_byte_array(), rep.pset_ids.1.to_byte_array()) == e, || describe(t));
+            // today's behaviour of the known class (counted, not demanded: a repair must not raise an alarm)
+            out.count(if (rep.pset_ids.0.to_byte_array(), rep.pset_ids.1.to_byte_array()) == e { "excluded_index.ids_of_coinbase_index" } else { "excluded_index.other_ids" });
         }
     }
 }
